@@ -36,6 +36,10 @@ CLAIMED["C07"] = dict(technique="metamorphic testing over rapid-generated progra
 CLAIMED["C08"] = dict(technique="differential testing against the unrestricted run with a reference matcher: exhaustive singletons/pairs of the token alphabet + rapid subsets in random spelling, through the repository's flag parser in-process and through the real binary (flag and env)",
     text="For a fixed probe module producing all 16 codes and for rapid-generated programs, the diagnostics under exclude-checks=S must equal the diagnostics of the unrestricted run filtered by a restated ALL>category>code matcher; every single token and ordered pair of the 30-token alphabet is enumerated, random subsets add case, spacing and empty items; a sample goes through the real binary with --config.exclude-checks and GOGREEMENT_EXCLUDE_CHECKS.",
     note="reference matcher and list parser are restated in the harness (6 + 10 lines); in-process runs use config.CreateFlagSet/ParseFlagsFromFlagSet from the repository to turn the raw string into a Config", ref="DESIGN.md section 3, C08")
+
+CLAIMED["C18"] = dict(technique="rapid-generated configurations (flag x environment grid with boolean/list spellings and generated environment strings) run through the real binary in fresh processes on a probe module; expected reports from a restated resolution + parsing + skip + matching reference",
+    text="Each case draws, per option, flag absent/empty/value (bool: absent/bare/=spelling) and env unset/empty/value/generated string, runs the real gogreement binary (a sample through go vet -vettool) in a fresh process on a probe module with planted violations in a test file, a testdata directory, a gen_ file, a vendorx directory and one per code, and compares the reported planted-violation ids with those implied by the reference resolution flag > env-if-set > default; exit status must be 0 for every environment value.",
+    note="reference resolution/parsing (about 40 lines) restated from the documentation; GOGREEMENT_ENV_ONLY is never set; flag values are limited to spellings Go's flag package accepts", ref="DESIGN.md section 3, C18")
 ALL = ["C%02d" % i for i in range(1, 20)]
 NA_REASON = {}
 def main():
